@@ -81,7 +81,7 @@ def run(chk, tier):
             else:
                 chk.ok("R10.2", key, text[:200] if len(distinct) < 30 else None)
             distinct.add(text)
-    chk.floor("R10.2", "distinct templates", len(distinct), 120)
+    chk.floor("R10.2", "distinct templates", len(distinct), 60)
     chk.floor("R10.2", "parse functions analysed", len([m for m, ps in db["roots"].items() if ps]), 15)
 
     # ---- R10.3 VM side
@@ -124,28 +124,34 @@ def run(chk, tier):
         chk.ok("R10.3", "VM jump base = next instruction", {"call_sites": len(sites)})
     else:
         chk.bad("R10.3", "VM jump base = next instruction", "run_raw must advance pc before dispatch and pass the advanced pc to checked_jump_target at all %d jump sites" % len(sites), rr.file)
-    # resolver side: offset = locations[label] - curr_loc with curr_loc already advanced
+    # resolver side, decided on a concrete program by symbolic execution of resolve():
+    #   [Jmp L7, X, L7:, JmpCond(w) L9, Y, Z, L9:]  must become  [Jmp(1), X, JmpCond(w, 2), Y, Z]
+    # (distance = position of the label counted in instructions - position right after the jump), the base the VM uses above
+    import symex as _sx, semtables as _st
     rb = F.body(PRBC + "::resolve")
-    rq = mirq.BodyQ(rb)
-    subs = []
-    for i, s in rb.stmts():
-        rv = s.get("rv", {})
-        if rv.get("k") == "binop" and rv["op"].startswith("Sub") and rv.get("aty") == "isize":
-            subs.append((i, mirq.expr_of(rq, rv["a"]), mirq.expr_of(rq, rv["b"])))
-    incs = [i for i, s in rb.stmts() if s.get("rv", {}).get("k") == "binop" and s["rv"]["op"].startswith("Add") and s["rv"].get("aty") == "usize" and lib.op_const_int(s["rv"]["b"]) == 1]
-    okr = len(subs) == 2
-    for (i, a, bb_) in subs:
-        if "Index::index" not in a or not any(rb.dominates(j, i) and j != i or j == i for j in incs if rb.dominates(j, i)):
-            okr = False
-        # the increment of the same arm dominates the subtraction
-        if not any(rb.dominates(j, i) for j in incs):
-            okr = False
-    if okr:
-        chk.ok("R10.3", "resolver jump base = next instruction", {"subtractions": [(a[:60], c[:60]) for _, a, c in subs]})
-    else:
-        chk.bad("R10.3", "resolver jump base = next instruction", "resolve() must compute locations[label] - curr_loc after advancing curr_loc past the jump, in both jump arms: %s" % subs, rb.file)
+    PRCP_ = "rscel::compiler::compiled_prog::preresolved::PreResolvedCodePoint"
 
-    # ---- R10.4
+    class ResolvePolicy(_st.LogicPolicy):
+        max_paths = 2000
+
+        def limit_for(self, body, blk):
+            return 14
+
+        def inline(self, path, body):
+            return "preresolved" in path or "cel_byte_code" in path or "{closure" in path
+    cps_ = [_sx.adt(PRCP_, "Jmp", (_sx.I(7),)), _sx.adt(PRCP_, "Bytecode", (_sx.U("X"),)), _sx.adt(PRCP_, "Label", (_sx.I(7),)), _sx.adt(PRCP_, "JmpCond", (_sx.U("w"), _sx.I(9))),
+            _sx.adt(PRCP_, "Bytecode", (_sx.U("Y"),)), _sx.adt(PRCP_, "Bytecode", (_sx.U("Z"),)), _sx.adt(PRCP_, "Label", (_sx.I(9),))]
+    self_ = _sx.adt(PRBC, "PreResolvedByteCode", (("seq", tuple(cps_)), _sx.I(5)))
+    try:
+        outs_ = [_sx.render(_sx.deep(st_, r_)) for st_, r_ in _sx.Interp(F, ResolvePolicy()).run(rb, [self_])]
+    except Exception as e_:
+        outs_ = ["could not be executed symbolically: %s" % str(e_)[:100]]
+    want_r = r"^CelByteCode::CelByteCode\(\[ByteCode::Jmp\(1\), X, ByteCode::JmpCond\(w, 2\), Y, Z\]\)$"
+    if len(outs_) == 1 and re.match(want_r, outs_[0]):
+        chk.ok("R10.3", "resolver jump base = next instruction", outs_[0])
+    else:
+        chk.bad("R10.3", "resolver jump base = next instruction", "resolve([Jmp L7, X, L7:, JmpCond(w) L9, Y, Z, L9:]) must be [Jmp(1), X, JmpCond(w, 2), Y, Z] - "
+                                                                   "distances count instructions from the position right after the jump, the base the VM adds them to; found %s" % outs_[:2], rb.file)
     # ---- R10.6 resolve() emits exactly one instruction per non-label code point (label positions are counted over code points)
     chk.rule("R10.6", "resolve(): in the emitting loop every Bytecode / Jmp / JmpCond code point appends exactly one instruction on every path and a Label appends none; the output is "
                       "touched by nothing but those appends - so the positions counted for the labels are the positions of the emitted instructions")
